@@ -344,6 +344,10 @@ func (blockchain *Blockchain) BeginBlock(req abciTypes.RequestBeginBlock) abciTy
 		if candidate == nil || candidate.Status == candidates.CandidateStatusOffline || blockchain.stateDeliver.Validators.GetByTmAddress(address) == nil {
 			continue
 		}
+		// skip validators already punished in this block (several pieces of evidence against one validator)
+		if blockchain.stateDeliver.Validators.GetByTmAddress(address).IsToDrop() {
+			continue
+		}
 
 		blockchain.stateDeliver.FrozenFunds.PunishFrozenFundsWithID(height, height+types.GetUnbondPeriod(), candidate.ID)
 		blockchain.stateDeliver.Validators.PunishByzantineValidator(address)
